@@ -403,8 +403,10 @@ class Run:
         """
         import subprocess
         import tempfile
-        if STRIDE > 1 or os.environ.get("VERIF_FAILFAST") or os.environ.get("VERIF_NO_OPT_PASS") or sys.flags.optimize or not self.reduced_pass:
+        if STRIDE > 1 or os.environ.get("VERIF_NO_OPT_PASS") or sys.flags.optimize or not self.reduced_pass:
             return
+        if os.environ.get("VERIF_FAILFAST") and self.acc.violations:
+            return  # sweep mode: already failing
         t0 = time.time()
         tmp = tempfile.mkdtemp(prefix="verif-opt-")
         try:
